@@ -637,6 +637,8 @@ func dpRandomScenarios(n int, level int) [][]dpStep {
 		aset := 3 + rng.Intn(1000)
 		fam := fams[rng.Intn(3)]
 		live := map[int]bool{}
+		// an ENI is a trunk or it is not: the pods sharing it agree (trunk needs tc actions: level 1 only)
+		trunkENI := map[int]bool{1: level == 1 && rng.Intn(3) == 0, 2: level == 1 && rng.Intn(3) == 0}
 		steps := 3 + rng.Intn(5)
 		for j := 0; j < steps; j++ {
 			p := 1 + rng.Intn(3)
@@ -652,15 +654,14 @@ func dpRandomScenarios(n int, level int) [][]dpStep {
 			}
 			dp := dps[rng.Intn(len(dps))]
 			multi := rng.Intn(3) == 0
-			trunk := level == 1 && (dp == "policy" || dp == "ipvlan") && rng.Intn(3) == 0
-			st := dpStep{a: "setup", p: p, i: 0, dp: dp, fam: fam, eni: 1 + rng.Intn(2), def: true, multi: multi, extra: rng.Intn(3), trunk: trunk, aset: aset, peer: rng.Intn(4) != 0}
-			if dp == "vlan" {
-				st.trunk = false
-			}
+			e := 1 + rng.Intn(2)
+			st := dpStep{a: "setup", p: p, i: 0, dp: dp, fam: fam, eni: e, def: true, multi: multi, extra: rng.Intn(3), aset: aset, peer: rng.Intn(4) != 0}
+			st.trunk = (dp == "policy" || dp == "ipvlan") && trunkENI[e]
 			sc = append(sc, st)
 			if multi {
 				st2 := st
 				st2.i, st2.def, st2.eni = 1, false, 3-st.eni
+				st2.trunk = (dp == "policy" || dp == "ipvlan") && trunkENI[st2.eni]
 				if dp == "exclusive" {
 					st2.peer = false
 				}
